@@ -24,7 +24,7 @@ def run(ctx, focus):
                 "values, a string for non-finite / unmarshallable) and have the specification's token structure; the text line "
                 "must equal the line rebuilt from the real JSON tokens.  FileLine.tla: all (length 0..12, width -5..14) + sweep "
                 "of widths -5..200.  Non-trivial = distinct call streams." % (
-                    (8, 4, 10) if thorough else (7, 3, 3)))
+                    (10, 4, 10) if thorough else (7, 3, 3)))
     rep.assumptions = ["TLC/SANY", "Go toolchain", "encoding/json (json.Valid, json.Marshal, Unmarshal of string literals) and strconv as reference",
                        "value fidelity is sampled over boundary + seeded values, structure is exhaustive within the bound"]
     return rep
